@@ -6,6 +6,7 @@
    with positions 0,1,2,... (what load_contests_from_raire builds).  A blank ballot, and a CVR that does not
    contain the contest, is [].  A profile is the list of all ballots (one per CVR). *)
 From SV Require Export Xq.
+From Coq Require Export Permutation.
 Open Scope nat_scope.
 
 Definition cand := nat.
@@ -47,17 +48,21 @@ Inductive assertion : Type :=
 
 Definition count (f : ballot -> bool) (p : profile) : nat := length (filter f p).
 
+(* is_vote_for_winner / is_vote_for_loser of the two assertion classes, per ballot *)
+Definition vote_w (a : assertion) (b : ballot) : bool :=
+  match a with
+  | NEB w l => neb_vote_w w b
+  | NEN w l e => vote_for_cand w e b
+  end.
+Definition vote_l (a : assertion) (b : ballot) : bool :=
+  match a with
+  | NEB w l => neb_vote_l w l b
+  | NEN w l e => vote_for_cand l e b
+  end.
+
 (* tallies as compute_raire_assertions L83-88 (NEB) and find_best_audit L712-717 (NEN) accumulate them *)
-Definition tally_w (p : profile) (a : assertion) : nat :=
-  match a with
-  | NEB w l => count (neb_vote_w w) p
-  | NEN w l e => count (vote_for_cand w e) p
-  end.
-Definition tally_l (p : profile) (a : assertion) : nat :=
-  match a with
-  | NEB w l => count (neb_vote_l w l) p
-  | NEN w l e => count (vote_for_cand l e) p
-  end.
+Definition tally_w (p : profile) (a : assertion) : nat := count (vote_w a) p.
+Definition tally_l (p : profile) (a : assertion) : nat := count (vote_l a) p.
 
 (* An NEN assertion compares two candidates that are both still standing: the loser is a candidate, is not
    among the eliminated ones and is not the winner (find_best_audit takes it from tail[1:]). *)
@@ -73,8 +78,8 @@ Definition holds (cands : list cand) (p : profile) (a : assertion) : bool :=
 
 (* ---- elimination orders.  A complete order lists every candidate once, first eliminated first; the last one
    is the winner of that count. *)
-Definition last_is (c : cand) (pi : list cand) : bool :=
-  match rev pi with x :: _ => Nat.eqb x c | [] => false end.
+Definition ends_in_other (winner : cand) (pi : list cand) : bool :=
+  match rev pi with x :: _ => negb (Nat.eqb x winner) | [] => false end.
 
 (* w occurs in pi and l occurs later *)
 Definition before (w l : cand) (pi : list cand) : bool :=
@@ -107,7 +112,7 @@ Definition complete_order (cands pi : list cand) : Prop := Permutation.Permutati
 
 (* every complete elimination order that ends in a candidate other than winner is contradicted by some member *)
 Definition sufficient (cands : list cand) (winner : cand) (A : list assertion) : Prop :=
-  forall pi, complete_order cands pi -> last_is winner pi = false ->
+  forall pi, complete_order cands pi -> ends_in_other winner pi = true ->
              exists a, In a A /\ contradicts a pi = true.
 
 (* IRV count of the profile: at every round the candidate eliminated has the fewest votes among those standing
